@@ -147,15 +147,16 @@ def systemClosedPrefixedEm (sys : String) (ps : List String) (excl : List (Strin
   | some r => emPrefixable.all fun k => ps.all fun p =>
       (excl.contains (sys, k) && !ok.contains (sys, p ++ k)) || rowOkC10 r (p ++ k)
 
-/-- the prefixes of the kernel-decided prefixed obligation: an ordinary one-letter prefix, the
-    two-letter `da`, and the three spellings of micro (one of which a built-in system declares a
-    unit with).  All other prefixes take the same route through the code; they are covered
-    exhaustively by the compiled model and the direct oracle in the thorough tier.  (String
-    comparison in the kernel costs ≈0.4 ms, a prefixed EM row ≈1.4 s.) -/
+/-- the prefixes of the kernel-decided prefixed obligation: ordinary one-letter prefixes, the
+    two-letter `da`, and `μ` (which a built-in system declares a unit with; the spellings `u` and
+    `µ` are mapped to `μ` by the parser and never occur in a symbol).  All other prefixes take
+    the same route through the code; they are covered exhaustively by the compiled model and the
+    direct oracle in the thorough tier.  (String comparison in the kernel costs ≈0.4 ms, a
+    prefixed EM row ≈1.4 s.) -/
 def prefixHalf (i : Nat) : List String :=
   (match i with
    | 0 => ["m", "k", "da"]
-   | _ => ["μ", "µ", "u"]).filter allPrefixKeys.contains
+   | _ => ["μ", "M", "n"]).filter allPrefixKeys.contains
 
 /-- every excluded bare row really fails (an exclusion cannot outlive its finding) -/
 def exclusionsFailAtomic (excl : List (String × String)) : Bool :=
@@ -213,6 +214,14 @@ def emTableOk : Bool :=
         | some e => e.dim == r.toDim
         | none => false))
   && Generated.rawEmDims == Generated.rawEm.map (fun (_, d, _, _, _, _) => d)
+
+/-- no key of the regenerated unit table reads as SI prefix + prefixable unit -/
+def keysUnsplitOk : Bool := c10Lut.all fun (k, _) => splitPrefix c10Pre c10Lut k == ("", k)
+
+/-- `inv_name_alternatives` maps the table keys (one quarter of them) to themselves -/
+def invIdOnKeysChunk (i : Nat) : Bool :=
+  ((c10Lut.drop (40 * i)).take (if i ≥ 3 then c10Lut.length else 40)).all fun (k, _) =>
+    invLookup Generated.invNames k == some k
 
 end checks
 end Unyt
